@@ -5,6 +5,7 @@
 From Coq Require Import List Arith Bool Lia.
 Require Import MTX.Model.C40_StreamLock.
 Import ListNotations.
+Import SL.
 
 (* ---- where a goroutine is with respect to the mutex, read off the code it still has to execute ------------------ *)
 Inductive stg := SNo | SAnn | SW | SR.
